@@ -78,6 +78,8 @@ mod serialize;
 
 mod unpretty;
 mod valueaccess;
+#[cfg(xot_verif)]
+mod verif_hooks;
 pub mod xmlname;
 mod xmlvalue;
 mod xotdata;
